@@ -43,6 +43,7 @@ def tasks(tier, seed):
     ts.append({"part": "faults", "name": "faults"})
     ts.append({"part": "interim", "name": "interim"})
     ts.append({"part": "longline", "name": "longline"})
+    ts.append({"part": "statusline", "name": "statusline"})
     return ts
 
 
@@ -70,8 +71,8 @@ class Peer:
             sock.stream += self.respond(self.request, self.hop, sock)
 
 
-def build_response(req, status, upgrade, connection, accept, selected, prevkey="dGhlIHNhbXBsZSBub25jZQ==", location=None):
-    lines = [("HTTP/1.1 %d Status" % status).encode()]
+def build_response(req, status, upgrade, connection, accept, selected, prevkey="dGhlIHNhbXBsZSBub25jZQ==", location=None, status_line=None):
+    lines = [("HTTP/1.1 %d Status" % status).encode() if status_line is None else status_line]
     if upgrade is not None:
         lines.append(b"Upgrade: " + upgrade.encode())
     if connection is not None:
@@ -218,6 +219,22 @@ def recipe_case(status, upgrade, connection, accept, offered, selected, prior=No
         label += " [object re-used after an earlier connection died with ECONNRESET]"
     why = "status" if status != 101 else ("upgrade" if not has_token(upgrade, "websocket") else ("connection" if not has_token(connection, "upgrade") else ("accept:" + accept if accept != "right" else "subprotocol")))
     return check_outcome(net, ws, out, expect, label, {"part": "recipe", "why": why if not ok or expect is False else "valid"})
+
+
+DECOYS = [b"HTTP/1.1 200 101 Switching Protocols", b"HTTP/1.1 404 101", b"HTTP/1.1 500 Status 101", b"HTTP/101 200 OK", b"HTTP/1.1 200 OK 101",
+          b"HTTP/1.1 1 101", b"HTTP/1.1 0 101 Switching Protocols", b"HTTP/1.1 000 101 Switching Protocols", b"HTTP/1.1 00 Switching Protocols"]
+
+
+def statusline_case(line, cls, use_cc=False, prior=None):
+    """An otherwise complete and valid upgrade response whose status line is `line`. cls: 'exact' - must connect; 'other' - must be refused
+    (no reading of the status field gives 101); 'lenient' / 'ambiguous' - the library may decide either way, but consistently."""
+    def respond(req, hop, sock):
+        return build_response(req, 101, "websocket", "Upgrade", "right", None, status_line=line)
+
+    net, ws, out, hops = run_connect(respond, {}, use_cc=use_cc, prior=prior)
+    expect = True if cls == "exact" else (False if cls == "other" else (out[0] == "ret"))
+    label = "status line %r (%s spelling) in front of an otherwise valid upgrade%s" % (line, cls, " [create_connection]" if use_cc else "")
+    return check_outcome(net, ws, out, expect, label, {"part": "statusline", "why": cls})
 
 
 def interim_case(istatus, ifields, ffields, offered):
@@ -368,6 +385,18 @@ def run_task(desc):
                 n += 1
                 rec(guarded(recipe_case, status, up, co, ac, of, se, "stale"), {"case": "recipe", "args": [status, up, co, ac, of, se, "stale"]})
         res["samples"].append({"status": status, "upgrade": UPGRADES[:3], "accept_variants": ACCEPTS})
+    elif desc["part"] == "statusline":
+        cases = []
+        for sp, cls in HS.numeric_spellings(101):
+            for tail in (b" Switching Protocols", b"", b" ", b" 101", b" OK"):
+                cases.append((b"HTTP/1.1 " + sp + tail, cls if (cls != "exact" or tail != b"") else "lenient"))
+            cases.append((b"HTTP/1.0 " + sp + b" Switching Protocols", cls if cls != "exact" else "lenient"))
+        cases += [(d, "other") for d in DECOYS]
+        for line, cls in cases:
+            for use_cc, prior in ((False, None), (True, None), (False, "stale")):
+                n += 1
+                rec(guarded(statusline_case, line, cls, use_cc, prior), {"case": "statusline", "args": [line, cls, use_cc, prior]})
+        res["samples"].append({"status_lines": [c[0].decode("utf-8", "replace") for c in cases[:4] + cases[-3:]], "count": len(cases)})
     elif desc["part"] == "longline":
         offsets = sorted({2 ** k + d for k in range(6, 18) for d in (-1, 0, 1)} | {1000, 8190, 8192, 65534, 65535, 65536, 65537, 100000})
         for field in ("upgrade", "connection", "accept"):
@@ -410,6 +439,6 @@ def run_task(desc):
 
 
 def replay(rep):
-    fn = {"recipe": recipe_case, "redirect": redirect_case, "fault": fault_case, "interim": interim_case, "longline": longline_case}[rep["case"]]
+    fn = {"recipe": recipe_case, "redirect": redirect_case, "fault": fault_case, "interim": interim_case, "longline": longline_case, "statusline": statusline_case}[rep["case"]]
     f = fn(*rep["args"])
     return None if f is None else {"sig": f[0], "what": f[1]}
